@@ -64,8 +64,8 @@ struct Gen
     std::map<int, uint32_t> last_val; // the value the plan wrote last under each key
     unsigned             w[(int)OpKind::COUNT]{};
     unsigned             tw[6]{}; // freeze, small, boundary, boundary-1, boundary+1, jump
-    unsigned             splice_num{0}, nonlive_num{0};
-    bool                 big_ranges{false};
+    unsigned             splice_num{0}, nonlive_num{0}, drift_num{0};
+    bool                 big_ranges{false}, huge{false};
     int                  hot{2};
 
     Gen(uint64_t seed, const GenProfile& pf) : r(seed), prof(pf) {}
@@ -135,6 +135,24 @@ struct Gen
             n = (size_t)r.range(cap, 2 * cap);
         if (big_ranges && r.chance(1, 3))
             n = (size_t)r.range(40, 150);
+        if (huge && r.chance(1, 2))
+        {
+            // a run of distinct keys covering most of the universe
+            n        = (size_t)r.range(p.cfg.universe / 2, p.cfg.universe);
+            int base = (int)r.below(p.cfg.universe);
+            for (size_t i = 0; i < n; ++i)
+            {
+                Item it;
+                it.key = (int)((base + i) % p.cfg.universe);
+                if (with_vals)
+                {
+                    it.val    = next_val++;
+                    it.ttl_ms = pick_ttl();
+                }
+                v.push_back(it);
+            }
+            return v;
+        }
         for (size_t i = 0; i < n; ++i)
         {
             Item it;
@@ -275,6 +293,11 @@ struct Gen
         return op;
     }
 
+    int64_t unit_ns() const
+    {
+        return (tr.policy == Policy::lfuda ? p.cfg.tick_ms : std::max<int64_t>(1, cur_ttl ? cur_ttl : ttl_palette[0])) * MS;
+    }
+
     int64_t gen_adv()
     {
         bool timed = tr.ttl != TtlMode::none || tr.policy == Policy::lfuda;
@@ -375,6 +398,27 @@ struct Gen
             c.universe = (uint32_t)r.range(70, 200);
             big_ranges = true;
         }
+        if (tr.ttl != TtlMode::none && r.chance(1, 96))
+        {
+            // TTL containers: now and then hundreds or thousands of entries that expire together, written by a
+            // few long ranges, so that a bound on the work done per call (a purge that stops after N entries)
+            // is crossed.  Short plans, plain key type: the cost is in the number of entries.
+            // (a bounded cache pays a complete probe for every evicting insert: keep those smaller)
+            static const uint32_t us[]  = {300, 520, 1100, 1500, 2200};
+            static const uint32_t usc[] = {260, 300, 300, 400, 520};
+            uint32_t              u     = (tr.has_capacity ? usc : us)[r.below(5)] + (uint32_t)r.below(50);
+            if (tr.has_capacity)
+            {
+                c.capacity = u;
+                c.universe = u + (uint32_t)r.range(1, 4);
+            }
+            else
+                c.universe = u;
+            c.kt       = KeyT::i;
+            c.vt       = ValT::i;
+            big_ranges = true;
+            huge       = true;
+        }
         hot        = tr.has_capacity ? (int)c.capacity + 1 : (int)c.universe;
         {
             static const double mlfs[] = {0.01, 0.25, 0.5, 1.0, 1.0, 1.0, 2.0, 8.0, 64.0};
@@ -397,8 +441,10 @@ struct Gen
         {
             static const int64_t ticks[] = {1, 5, 20, 1000, 60000};
             c.tick_ms                    = ticks[r.below(5)];
-            static const double ratios[] = {0.0, 0.25, 0.5, 0.5, 0.75, 1.0};
-            c.ratio                      = ratios[r.below(6)];
+            // dyadic, so that the model's product is exact; the finer ones need counts of 8 and more to differ
+            // from a coarser approximation of the ratio
+            static const double ratios[] = {0.0, 0.25, 0.5, 0.5, 0.75, 1.0, 0.125, 0.375, 0.625, 0.875, 0.0625, 0.9375};
+            c.ratio                      = ratios[r.below(12)];
         }
         {
             unsigned x = (unsigned)r.below(4);
@@ -440,6 +486,7 @@ struct Gen
             tw[1] = tw[2] = 1;
         splice_num  = (unsigned)r.below(5);
         nonlive_num = (unsigned)r.below(4); // of 4 -> density 0, 1/8, 1/2, 1
+        drift_num   = r.chance(1, 2) ? (unsigned)r.range(1, 4) : 0;
         static const unsigned dens[] = {0, 1, 4, 8};
         unsigned              nl     = dens[nonlive_num];
 
@@ -504,6 +551,13 @@ struct Gen
             wtot += x;
 
         int nsteps = r.chance(1, 3) ? (int)r.range(1, 12) : (int)r.range(8, prof.max_steps);
+        if (huge)
+        {
+            nsteps = (int)r.range(2, 9);
+            nl     = 0;
+            w[(int)OpKind::insert_range] += 8;
+            wtot += 8;
+        }
         for (int i = 0; i < nsteps; ++i)
         {
             Step s;
@@ -521,6 +575,12 @@ struct Gen
             s.op        = gen_op((OpKind)k, splice);
             s.splice    = splice;
             s.probe_nonlive = nl && r.chance(nl, 8);
+            if (s.op.is_range() && drift_num && (tr.ttl != TtlMode::none || tr.has_age) && r.chance(drift_num, 4))
+            {
+                // the clock moves between reads inside this range call
+                static const int64_t ds[] = {1, 1000, MS, 5 * MS};
+                s.drift_ns                = r.chance(1, 4) ? std::max<int64_t>(1, unit_ns() / (int64_t)r.range(1, 3)) : ds[r.below(4)];
+            }
             p.steps.push_back(std::move(s));
         }
         return p;
@@ -599,11 +659,22 @@ size_t shrink_seq(SeqPlan& plan, const std::function<bool(const SeqPlan&)>& pred
             try_mut([](Step& s) { s.adv_ns = 0; });
             try_mut([](Step& s) { s.splice = false; });
             try_mut([](Step& s) { s.probe_nonlive = false; });
+            try_mut([](Step& s) { s.drift_ns = 0; });
+            try_mut([](Step& s) { s.drift_ns = 1; });
             try_mut([](Step& s) { s.op.form = 0; });
             try_mut([](Step& s) { s.op.peek = false; });
             try_mut([](Step& s) { s.op.allow = ALLOW_BOTH; });
-            // shorten ranges
-            while (plan.steps[i].op.is_range() && !plan.steps[i].op.items.empty())
+            // shorten ranges: long ones by chunks first
+            if (plan.steps[i].op.is_range() && plan.steps[i].op.items.size() > 16)
+                for (size_t chunk = plan.steps[i].op.items.size() / 2; chunk >= 8; chunk /= 2)
+                    for (size_t j = 0; j + chunk <= plan.steps[i].op.items.size();)
+                    {
+                        if (!try_mut([j, chunk](Step& s) {
+                                s.op.items.erase(s.op.items.begin() + (long)j, s.op.items.begin() + (long)(j + chunk));
+                            }))
+                            j += chunk;
+                    }
+            while (plan.steps[i].op.is_range() && !plan.steps[i].op.items.empty() && plan.steps[i].op.items.size() <= 160)
             {
                 bool any = false;
                 for (size_t j = 0; j < plan.steps[i].op.items.size(); ++j)
@@ -659,6 +730,13 @@ size_t shrink_seq(SeqPlan& plan, const std::function<bool(const SeqPlan&)>& pred
             c.cfg.vt = ValT::i;
         });
         try_cfg([](SeqPlan& c) { c.cfg.ts = false; });
+        try_cfg([](SeqPlan& c) {
+            if (c.cfg.capacity > 64)
+            {
+                c.cfg.universe -= std::min(c.cfg.universe - 1, c.cfg.capacity / 2);
+                c.cfg.capacity -= c.cfg.capacity / 2;
+            }
+        });
         try_cfg([](SeqPlan& c) {
             if (c.cfg.capacity > 1)
             {
